@@ -17,15 +17,11 @@ macro_rules! k14 {
         #[kani::stub(crate::rules::values::read_from, read_from_fails)]
         #[kani::stub(str::trim, crate::verif_stubs::trim_identity)]
         fn $name() {
-            // malformed data file: 102 characters, one of them (at char index $pos) a symbolic
+            // malformed data file: 102 characters, one of them (at char index $pos) a
             // $w-byte character, the rest ASCII 'b'
-            let c: char = kani::any();
-            let v = c as u32;
-            if $w == 2 {
-                kani::assume(v >= 0x80 && v < 0x800);
-            } else {
-                kani::assume(v >= 0x800 && v < 0x10000);
-            }
+            // the character's value is irrelevant to the slice arithmetic (only its width and position
+            // matter), and a symbolic one makes the boundary search loop unroll over symbolic bytes: concrete
+            let c: char = if $w == 2 { '\u{e9}' } else { '\u{20ac}' };
             let mut content = String::with_capacity(110);
             let mut i = 0;
             while i < 102 {
@@ -46,13 +42,13 @@ macro_rules! k14 {
         }
     };
 }
-//@ k14_slice_p97_w3 props=C08 tier=quick expect=pass fns=build_data_file :: malformed data file of 102 chars whose 3-byte char starts at byte 97 (spans the 100-byte preview cut): ParseError, no panic [read_from stubbed to fail, str::trim stubbed to identity]
+//@ k14_slice_p97_w3 props=C08 tier=thorough expect=pass fns=build_data_file :: malformed data file of 102 chars whose 3-byte char starts at byte 97 (spans the 100-byte preview cut): ParseError, no panic [read_from stubbed to fail, str::trim stubbed to identity]
 k14!(k14_slice_p97_w3, 97, 3);
-//@ k14_slice_p98_w3 props=C08 tier=quick expect=pass fns=build_data_file :: same, 3-byte char starting at byte 98
+//@ k14_slice_p98_w3 props=C08 tier=thorough expect=pass fns=build_data_file :: same, 3-byte char starting at byte 98
 k14!(k14_slice_p98_w3, 98, 3);
 //@ k14_slice_p99_w2 props=C08 tier=quick expect=pass fns=build_data_file :: same, 2-byte char at bytes 99..101 (byte 100 is inside the character)
 k14!(k14_slice_p99_w2, 99, 2);
-//@ k14_slice_p99_w3 props=C08 tier=quick expect=pass fns=build_data_file :: same, 3-byte char starting at byte 99
+//@ k14_slice_p99_w3 props=C08 tier=thorough expect=pass fns=build_data_file :: same, 3-byte char starting at byte 99
 k14!(k14_slice_p99_w3, 99, 3);
 //@ k14_slice_p100_w2 props=C08 tier=thorough expect=pass fns=build_data_file :: same, 2-byte char starting exactly at the cut (byte 100): boundary is fine
 k14!(k14_slice_p100_w2, 100, 2);
